@@ -63,3 +63,13 @@ Definition can_move (fx : bool) (s : state) : Prop :=
   exists l s', env_label l = false /\ step fx s l = Some s'.
 Definition no_deadlock (fx : bool) (s : state) : Prop :=
   gsd s = true -> all_done s \/ can_move fx s.
+
+(* termination measure: pairs of naturals, lexicographically *)
+Definition lex_lt (a b : nat * nat) : Prop :=
+  fst a < fst b \/ (fst a = fst b /\ snd a < snd b).
+
+(* every step that is not a spurious wake-up / timer strictly decreases [mu] once both
+   shutdown flags are set *)
+Definition decreases_after_shutdown (fx : bool) (mu : state -> nat * nat) : Prop :=
+  forall s l s', reachable fx s -> psd s = true -> gsd s = true ->
+    env_label l = false -> step fx s l = Some s' -> lex_lt (mu s') (mu s).
